@@ -2,7 +2,10 @@
 package c33
 
 import (
+	"encoding/json"
 	"fmt"
+	"os"
+	"path/filepath"
 	"reflect"
 	"strconv"
 	"strings"
@@ -250,6 +253,9 @@ func gen(c *common.Ctx, emit func(...string)) {
 	n := c.Scale(2500, 100000)
 	text := func() string { return genText(r, 5, r.Chance(1, 4), r.Chance(1, 4)) }
 	for i := 0; i < n; i++ {
+		// histories over named values (history.go): operands are re-used and every value is re-observed
+		genHistory(r, emit)
+		emit("reset") // the stateless ops below; replays are cut here
 		emit("T", common.Hex(genString(r, 4, true)), genStylings(r))
 		var ts []string
 		for k := r.Range(0, 4); k > 0; k-- {
@@ -495,8 +501,15 @@ func eval(f []string) (one ui.Text, many []ui.Text, isMany bool) {
 	panic("unknown op " + f[0])
 }
 
-func impl(_ any, f []string) string {
+func impl(st any, f []string) string {
 	switch f[0] {
+	case "reset":
+		if h, ok := st.(*hist); ok {
+			h.reset()
+		}
+		return "ok"
+	case "h":
+		return st.(*hist).step(f[1:])
 	case "sd":
 		src, err := styledown.Derender(parseText(f[1]), common.Unhex(f[2]))
 		if err != nil {
@@ -590,7 +603,13 @@ func hasZeroWidth(s string) bool {
 	return false
 }
 
-func oracle(_ any, f []string, out string) (string, string) {
+func oracle(st any, f []string, out string) (string, string) {
+	switch f[0] {
+	case "reset":
+		return "", ""
+	case "h":
+		return st.(*hist).oracle(f[1:], out)
+	}
 	if out == "PANIC" || out == "TIMEOUT" {
 		return f[0] + "-crash", out
 	}
@@ -798,6 +817,14 @@ func tag(f []string, out string) string {
 		return f[0] + ":" + strings.ToLower(strings.SplitN(out, ",", 2)[0])
 	}
 	switch f[0] {
+	case "reset":
+		return ""
+	case "h":
+		t := "h:" + f[1]
+		if curHist != nil && curHist.reused {
+			t += ":operand-used-before"
+		}
+		return t
 	case "T":
 		if out == "." {
 			return ""
@@ -844,16 +871,43 @@ func tag(f []string, out string) string {
 	return f[0]
 }
 
+// curHist is the state of the run, for tag (which does not get the state).
+var curHist *hist
+
 func run(c *common.Ctx) error {
+	curHist = newHist()
 	s := &common.Std{
+		NewState: func(*common.Ctx) any { return curHist },
 		Rule: "random styled texts (0–5 segments; styles from a small palette of colours/attributes so equal neighbours occur; " +
 			"text from ASCII, wide CJK/emoji, combining marks, newlines, tabs, invalid UTF-8; 3/4 in normal form, 1/4 raw with empty segments " +
 			"and equal neighbours) × every ui.Text operation with random arguments; styledown Derender→Render on texts over the styles " +
-			"the chosen definitions express; non-trivial = all but T(\"\"); distinct by op line",
+			"the chosen definitions express; histories (reset + h lines): 4-13 operations over NAMED values kept as the real Go values " +
+			"(operands re-used, parts/sub-slices/builder results fed to later operations), every value re-observed after every step; " +
+			"non-trivial = all but T(\"\") and reset; distinct by op line",
 		Gen:    gen,
 		Impl:   impl,
 		Oracle: oracle,
 		Tag:    tag,
 	}
-	return s.Run(c)
+	if err := s.Run(c); err != nil {
+		return err
+	}
+	// the totals of the old-value oracle go into the evidence (stats.json is written by Run)
+	p := filepath.Join(c.Dir, "stats.json")
+	var stats map[string]any
+	if b, err := os.ReadFile(p); err == nil && json.Unmarshal(b, &stats) == nil {
+		extra, _ := stats["extra"].(map[string]any)
+		if extra == nil {
+			extra = map[string]any{}
+		}
+		extra["histories"] = curHist.nHist
+		extra["history_steps"] = curHist.nSteps
+		extra["history_steps_with_an_operand_used_before"] = curHist.nReused
+		extra["old_values_reobserved"] = curHist.nObserved
+		stats["extra"] = extra
+		if b, err := json.MarshalIndent(stats, "", " "); err == nil {
+			os.WriteFile(p, b, 0o644)
+		}
+	}
+	return nil
 }
